@@ -266,6 +266,18 @@ func (q *QWorld) flushedCB() int { return q.cbFlushed }
 // when all bytes have been accepted.
 func (q *QWorld) WriteChunk(size, chunk int) bool {
 	if q.cur == nil {
+		if size < 0 {
+			// end exactly at the page end (or -size-1 bytes before it)
+			lay := q.layoutUpTo(q.Completed)
+			room := lay.payload - lay.used
+			if !lay.started {
+				room = lay.payload
+			}
+			size = room - szEventHeader - (-size - 1)
+			if size < 1 {
+				size = lay.payload - szEventHeader
+			}
+		}
 		q.cur = q.MakeEvent(size)
 		q.curOff = 0
 	}
